@@ -184,8 +184,7 @@ Proof.
       split; [exact El|]. split; [eexists; split; [apply slk_aset_same | simpl; auto]|]. split; [intro; reflexivity | reflexivity].
     + pose proof (new_request_TInv n c p0 s0 true [r] [call] HT Hok Hc Eq El) as Hn.
       unfold new_request in *. cbv beta iota zeta in *. simpl in Hn.
-      set (n1 := w_pid (aset N.eqb (n_next n) (key3 c p0 s0) (n_pid n))
-                  (w_pname (aset str_eqb (key3 c p0 s0) (mkPreq c p0 s0 true [r] [call]) (n_pname n)) (w_next (n_next n + 1) n))) in *.
+      match goal with |- context [send_req ?a ?b ?c] => set (n1 := a) in * end.
       assert (HT1 : TInv n1) by (apply Hn; intros _; discriminate).
       assert (Hfr : frame_at (key3 c p0 s0) n n1) by (intros k Hk; simpl; rewrite slk_aset_other by exact Hk; auto).
       assert (Hnofresh : nlk (n_next n) (n_pid n) = None).
@@ -206,4 +205,89 @@ Proof.
         split; [|reflexivity].
         intro id'. destruct (N.eq_dec id' (n_next n)) as [->|Hne]; [rewrite T4, Hnofresh; reflexivity|].
         rewrite T5 by exact Hne. apply nlk_aset_other. exact Hne.
+Qed.
+
+(* ---- unsubscribe from a remote signal ---- *)
+Lemma unsub_remote_spec n c p0 s0 r :
+  TInv n -> names_ok c p0 s0 = true -> c <> n_name n ->
+  let key0 := key3 c p0 s0 in
+  let res := unsub_remote n c p0 s0 r in
+  same_side n (fst res) /\ frame_at key0 n (fst res) /\
+  match slk key0 (n_lsubs n) with
+  | None => slk key0 (n_lsubs (fst res)) = None /\ slk key0 (n_pname (fst res)) = slk key0 (n_pname n) /\
+            same_pid n (fst res) /\ snd res = [ORes RNone]
+  | Some l =>
+      slk key0 (n_pname n) = None /\
+      if is_nil (sdel N.eqb r l) then
+        slk key0 (n_lsubs (fst res)) = None /\
+        if can_send n c then
+          slk key0 (n_pname (fst res)) = Some (mkPreq c p0 s0 false [] []) /\
+          nlk (n_next n) (n_pid (fst res)) = Some key0 /\
+          (forall id', id' <> n_next n -> nlk id' (n_pid (fst res)) = nlk id' (n_pid n)) /\
+          snd res = [OSend c (MSubReq (n_next n) p0 s0 false); ORes RNone]
+        else slk key0 (n_pname (fst res)) = None /\ same_pid n (fst res) /\ snd res = [ORes RNone]
+      else
+        slk key0 (n_lsubs (fst res)) = Some (sdel N.eqb r l) /\ slk key0 (n_pname (fst res)) = None /\
+        same_pid n (fst res) /\ snd res = [ORes RNone]
+  end.
+Proof.
+  intros HT Hok Hc key0 res. subst res key0. pose proof HT as (H0 & HPC & HPV & HNE & HNR & HEX). unfold unsub_remote.
+  assert (Hside : forall m, n_rsubs m = n_rsubs n -> n_peers m = n_peers n -> n_name m = n_name n -> n_objs m = n_objs n -> same_side n m)
+    by (intros m A B C D; unfold same_side; auto).
+  destruct (remove_local_TInv n (key3 c p0 s0) r HT) as (R1 & R2 & R3 & R4).
+  unfold remove_local in *.
+  destruct (slk (key3 c p0 s0) (n_lsubs n)) as [l|] eqn:El.
+  2: { simpl. split; [apply Hside; reflexivity|]. split; [intros k Hk; auto|]. split; [exact El|].
+       split; [reflexivity|]. split; [intro; reflexivity | reflexivity]. }
+  assert (Ep : slk (key3 c p0 s0) (n_pname n) = None) by (eapply HEX; eauto).
+  destruct (is_nil (sdel N.eqb r l)) eqn:En.
+  - cbn [fst snd] in *. cbn [n_pname w_lsubs]. rewrite Ep.
+    set (n0 := w_lsubs (aremove str_eqb (key3 c p0 s0) (n_lsubs n)) n) in *.
+    assert (El0 : slk (key3 c p0 s0) (n_lsubs n0) = None) by apply slk_aremove_same.
+    assert (Hc0 : c <> n_name n0) by exact Hc.
+    assert (Ep0 : slk (key3 c p0 s0) (n_pname n0) = None) by exact Ep.
+    pose proof (new_request_TInv n0 c p0 s0 false [] [] R1 Hok Hc0 Ep0 El0) as Hn.
+    unfold new_request in *. cbv beta iota zeta in *. simpl in Hn.
+    match goal with |- context [send_req ?a ?b ?c] => set (n1 := a) in * end.
+    assert (HT1 : TInv n1) by (apply Hn; discriminate).
+    assert (Hfr : frame_at (key3 c p0 s0) n n1).
+    { intros k Hk. simpl. rewrite slk_aset_other by exact Hk. rewrite slk_aremove_other by exact Hk. auto. }
+    assert (Hnofresh : nlk (n_next n) (n_pid n) = None).
+    { destruct (nlk (n_next n) (n_pid n)) eqn:E; [|reflexivity]. destruct HPC as (_ & _ & _ & P4). specialize (P4 _ _ E). lia. }
+    split; [|split; [|split; [first [exact Ep | reflexivity]|]]].
+    + destruct (can_send n c) eqn:Ec.
+      * rewrite send_req_up by exact Ec. simpl. apply Hside; reflexivity.
+      * assert (Ec1 : can_send n1 (pq_ctx (mkPreq c p0 s0 false [] [])) = false) by exact Ec.
+        assert (Eid1 : nlk (n_next n) (n_pid n1) = Some (key3 c p0 s0)) by apply nlk_aset_same.
+        assert (Eq1 : slk (key3 c p0 s0) (n_pname n1) = Some (mkPreq c p0 s0 false [] [])) by apply slk_aset_same.
+        match goal with |- context [send_req ?a ?b ?c0] =>
+          pose proof (send_req_down a b c0 (key3 c p0 s0) HT1 Ec1 Eid1 Eq1 (fun _ => eq_refl)) as Hd;
+          cbv zeta in Hd; destruct (send_req a b c0) as [n2 o2] end. simpl in Hd.
+        destruct Hd as (-> & T1 & _). simpl. apply (same_side_trans n n1 n2); [apply Hside; reflexivity | exact T1].
+    + destruct (can_send n c) eqn:Ec.
+      * rewrite send_req_up by exact Ec. simpl. exact Hfr.
+      * assert (Ec1 : can_send n1 (pq_ctx (mkPreq c p0 s0 false [] [])) = false) by exact Ec.
+        assert (Eid1 : nlk (n_next n) (n_pid n1) = Some (key3 c p0 s0)) by apply nlk_aset_same.
+        assert (Eq1 : slk (key3 c p0 s0) (n_pname n1) = Some (mkPreq c p0 s0 false [] [])) by apply slk_aset_same.
+        match goal with |- context [send_req ?a ?b ?c0] =>
+          pose proof (send_req_down a b c0 (key3 c p0 s0) HT1 Ec1 Eid1 Eq1 (fun _ => eq_refl)) as Hd;
+          cbv zeta in Hd; destruct (send_req a b c0) as [n2 o2] end. simpl in Hd.
+        destruct Hd as (-> & _ & T2 & _). simpl. apply (frame_at_trans _ n n1 n2); assumption.
+    + destruct (can_send n c) eqn:Ec.
+      * rewrite send_req_up by exact Ec. simpl.
+        split; [apply slk_aremove_same|]. split; [apply slk_aset_same|]. split; [apply nlk_aset_same|].
+        split; [intros id' Hn'; apply nlk_aset_other; exact Hn' | reflexivity].
+      * assert (Ec1 : can_send n1 (pq_ctx (mkPreq c p0 s0 false [] [])) = false) by exact Ec.
+        assert (Eid1 : nlk (n_next n) (n_pid n1) = Some (key3 c p0 s0)) by apply nlk_aset_same.
+        assert (Eq1 : slk (key3 c p0 s0) (n_pname n1) = Some (mkPreq c p0 s0 false [] [])) by apply slk_aset_same.
+        match goal with |- context [send_req ?a ?b ?c0] =>
+          pose proof (send_req_down a b c0 (key3 c p0 s0) HT1 Ec1 Eid1 Eq1 (fun _ => eq_refl)) as Hd;
+          cbv zeta in Hd; destruct (send_req a b c0) as [n2 o2] end. simpl in Hd.
+        destruct Hd as (-> & T1 & T2 & T3 & T4 & T5 & T6). simpl.
+        split; [exact T6|]. split; [exact T3|]. split; [|reflexivity].
+        intro id'. destruct (N.eq_dec id' (n_next n)) as [->|Hne]; [rewrite T4, Hnofresh; reflexivity|].
+        rewrite T5 by exact Hne. apply nlk_aset_other. exact Hne.
+  - simpl. split; [apply Hside; reflexivity|].
+    split; [intros k Hk; simpl; rewrite slk_aset_other by exact Hk; auto|].
+    split; [exact Ep|]. split; [apply slk_aset_same|]. split; [exact Ep|]. split; [intro; reflexivity | reflexivity].
 Qed.
